@@ -95,6 +95,7 @@ type netRun struct {
 	cutActive bool
 	ops       []*appOp
 	extraChannelsAllowed int
+	crashed   bool
 }
 
 var ctxBG = context.Background()
@@ -355,15 +356,28 @@ func (nr *netRun) open(x *xfer) {
 // responder-side transport configurer: per-channel store chosen by voucher
 func (nr *netRun) registerConfigurers() {
 	for _, n := range []*Node{nr.A, nr.B} {
-		n := n
+		nr.registerConfigurersOn(n)
+	}
+}
+
+func (nr *netRun) registerConfigurersOn(n *Node) {
+	{
 		_ = n.Mgr.RegisterTransportConfigurer("T0", func(chid datatransfer.ChannelID, v datatransfer.TypedVoucher) []datatransfer.TransportOption {
 			s, err := v.Voucher.AsString()
 			if err != nil {
 				return nil
 			}
 			x := nr.byV[s]
-			if x == nil || chid.Initiator == n.ID {
+			if x == nil {
 				return nil
+			}
+			if n == nr.A && x.perChA {
+				// needed when the initiator process restarts: the per-transfer option of the open call is gone
+				st := x.rcvStore
+				if !x.pull {
+					st = x.sndStore
+				}
+				return []datatransfer.TransportOption{gst.UseStore(st.LinkSystem())}
 			}
 			if n == nr.B && x.perChB {
 				st := x.sndStore
@@ -588,6 +602,69 @@ func (nr *netRun) installCuts() {
 	}
 }
 
+// installCrash arms one process crash: node X dies right after its k-th datastore write (keeping a prefix of the
+// write log that ends at most 2 writes earlier), comes back after a tape-chosen downtime with a fresh manager on
+// the surviving state, and its application restarts every non-terminal channel (as a Filecoin node does on start-up).
+func (nr *netRun) installCrash() {
+	r := nr.r
+	n := nr.A
+	if r.Intn(2) == 0 {
+		n = nr.B
+	}
+	total := 0
+	for _, x := range nr.xs {
+		total += len(x.walk)
+	}
+	k := len(n.Disk.Log) + 1 + r.Intn(6+3*total)
+	down := time.Duration(r.Intn(8000)) * time.Millisecond
+	armed := true
+	n.Disk.OnCommit = func(cnt int) {
+		if !armed || cnt < k {
+			return
+		}
+		armed = false
+		// the process dies at this very instant: everything written so far is durable, nothing later is;
+		// whatever the old instance still does (it keeps running as a zombie) reaches neither disk nor network
+		r.Fault("process-crash")
+		nr.crashed = true
+		n.Disk.OnCommit = nil
+		n.Crash(cnt)
+		for _, c := range r.Calls {
+			if c.Node == n.Name && c.Task != nil && !c.Task.Done() {
+				c.AllowBlocked = true // calls in flight inside the dead process never return
+			}
+		}
+		simrt.Go(func() {
+			nr.w.Net.Cut(nr.A.ID, nr.B.ID, false)
+			simrt.Sleep(down)
+			if !n.Start() {
+				return
+			}
+			nr.registerConfigurersOn(n)
+			chans, err := n.Mgr.InProgressChannels(ctxBG)
+			if err != nil {
+				return
+			}
+			for _, x := range nr.xs {
+				x := x
+				st, ok := chans[x.chid]
+				if !x.opened || !ok {
+					continue
+				}
+				sn := TakeSnap(r, "InProgressChannels-after-crash", st)
+				if isTerminal(sn.Status) {
+					continue
+				}
+				wait := time.Duration(r.Intn(3000)) * time.Millisecond
+				r.Op(n.Name, "app:restart-after-crash", func() {
+					simrt.Sleep(wait)
+					nr.api(n, "Restart", x, func() error { return n.Mgr.RestartDataTransferChannel(context.Background(), x.chid) })
+				})
+			}
+		})
+	}
+}
+
 // ---------------------------------------------------------------- the scenario
 
 func netTransfer(mk func(r *RunCtx) netCfg) func(r *RunCtx) {
@@ -607,6 +684,9 @@ func netTransfer(mk func(r *RunCtx) netCfg) func(r *RunCtx) {
 			nr.xs = append(nr.xs, x)
 		}
 		nr.installCuts()
+		if cfg.crash {
+			nr.installCrash()
+		}
 		r.S.SetPreemptions(r.Intn(4))
 		for _, x := range nr.xs {
 			x := x
@@ -643,12 +723,14 @@ func (nr *netRun) evaluate() {
 		nr.checkC11(x)
 		nr.checkC19(x)
 		for _, n := range []*Node{nr.A, nr.B} {
-			evs := n.EventsOf(x.chid)
-			sev := make([]StreamEv, 0, len(evs))
-			for _, e := range evs {
-				sev = append(sev, StreamEv{Code: e.Code, Snap: e.Snap, Step: e.Step})
+			for life := 0; life <= n.life; life++ {
+				evs := lifeEvents(n, x.chid, life)
+				sev := make([]StreamEv, 0, len(evs))
+				for _, e := range evs {
+					sev = append(sev, StreamEv{Code: e.Code, Snap: e.Snap, Step: e.Step})
+				}
+				checkStream(r, fmt.Sprintf("node %s channel #%d (life %d)", n.Name, x.idx, life), n == nr.A, nil, encTV(x.voucher), sev)
 			}
-			checkStream(r, fmt.Sprintf("node %s channel #%d", n.Name, x.idx), n == nr.A, nil, encTV(x.voucher), sev)
 		}
 	}
 	nr.wireMonitor()
@@ -742,7 +824,7 @@ func (nr *netRun) checkC01(x *xfer) {
 	if !sentFinal {
 		r.Failf("C01", "completed-without-final-complete", dir, "initiator reports %s #%d Completed but the responder never sent an un-paused Complete (responder status %s)", dir, x.idx, datatransfer.Statuses[sb.Status])
 	}
-	if sb.Status != datatransfer.Completed && !x.closedBy["B"] && !x.rejectedByB {
+	if sb.Status != datatransfer.Completed && !x.closedBy["B"] && !x.rejectedByB && !nr.crashed {
 		r.Failf("C01", "responder-not-completed", dir+"|"+datatransfer.Statuses[sb.Status], "initiator reports %s #%d Completed but the responder settled in %s (its application did not cancel or fail it)", dir, x.idx, datatransfer.Statuses[sb.Status])
 	}
 	if ok, why := nr.verifyReceiverStore(x); !ok {
@@ -751,6 +833,10 @@ func (nr *netRun) checkC01(x *xfer) {
 	snd, rcv := sa, sb
 	if x.pull {
 		snd, rcv = sb, sa
+	}
+	if nr.crashed {
+		// a crash may cut between the two events of one block report; byte totals after it are C06/C07 territory
+		return
 	}
 	if x.preseed == 0 {
 		if rcv.Received != snd.Queued || snd.Queued != x.payload {
@@ -837,6 +923,17 @@ func init() {
 		}
 		return c
 	}
+	crashCfg := func(r *RunCtx) netCfg {
+		c := base(r)
+		c.crash = true
+		c.limits, c.finalization, c.pauses = r.Intn(3) == 0, r.Intn(3) == 0, r.Intn(4) == 0
+		c.monitorA, c.monitorB = r.Intn(2) == 0, r.Intn(3) == 0
+		return c
+	}
+	Register("C01", Stratum{Name: "net-process-crash-and-restart", Weight: 1, Fn: netTransfer(crashCfg)})
+	Register("C10", Stratum{Name: "net-process-crash-and-restart", Weight: 3, Fn: netTransfer(crashCfg)})
+	Register("C06", Stratum{Name: "net-process-crash-and-restart", Weight: 2, Fn: netTransfer(crashCfg)})
+	Register("C09", Stratum{Name: "net-process-crash-and-restart", Weight: 1, Fn: netTransfer(crashCfg)})
 	Register("C11", Stratum{Name: "net-pauses", Weight: 4, Fn: netTransfer(pausesCfg)}, Stratum{Name: "net-mixed", Weight: 1, Fn: netTransfer(mixCfg)})
 	Register("C09", Stratum{Name: "net-closes", Weight: 4, Fn: netTransfer(closesCfg)}, Stratum{Name: "net-mixed", Weight: 2, Fn: netTransfer(mixCfg)})
 	Register("C10", Stratum{Name: "net-restarts", Weight: 4, Fn: netTransfer(restartsCfg)}, Stratum{Name: "net-mixed", Weight: 1, Fn: netTransfer(mixCfg)})
